@@ -325,6 +325,16 @@ def run(F, run, tier):
     check_multistep_retry(F, run)
     check_while_loops(F, run)
     check_controller_constants(F, run)
+    # the work bound presupposes that the solver runs with the bounds the user configured: the step setters (shared with C06 R6.1/R6.2) store
+    # exactly the requested bound and only adjust the other one to keep min <= max (a builder that lowers dt_max to dt_min makes every solve
+    # take interval/dt_min steps)
+    from rules import c06
+    for bname in ("RungeKutta", "Adams", "BDF"):
+        for m in ("with_maximum_dt", "with_minimum_dt"):
+            try:
+                c06.check_setter(F, run, bname, m)
+            except Missing as e:
+                run.broken("R6.1", "%s::%s" % (bname, m), "anchor", "src/ivp", str(e))
     run.assumptions += ["the evaluation-count bound is numerical and is not decided", "numeric guards are nondeterministic in the typestate exploration"]
     expl = ("Decides the termination skeleton: which errors a stepper may construct and under which guard, that every Redo path makes typestate "
             "progress or updates dt and passes the minimum-step test (RK structurally, Adams/BDF over all transitions of the explored protocol), "
